@@ -714,7 +714,18 @@ func (ex *Exec) convert(v Value, from, to types.Type) Value {
 		}
 		return a
 	case PtrV:
-		return a // unsafe.Pointer conversions keep the pointer
+		// unsafe.Pointer conversions keep the pointer; a pointer to element 0 of an array
+		// reinterpreted as a pointer to that array type becomes a pointer to the array
+		if pt, ok := to.Underlying().(*types.Pointer); ok && a.Obj != nil && len(a.Path) > 0 {
+			if at, ok := pt.Elem().Underlying().(*types.Array); ok && a.Path[len(a.Path)-1] == 0 {
+				if _, isArr := getAt(a.Obj.V, a.Path).(*ArrayV); !isArr {
+					if parent, ok := getAt(a.Obj.V, a.Path[:len(a.Path)-1]).(*ArrayV); ok && int64(len(parent.E)) == at.Len() {
+						return PtrV{Obj: a.Obj, Path: append([]int{}, a.Path[:len(a.Path)-1]...)}
+					}
+				}
+			}
+		}
+		return a
 	}
 	ex.unsupported("convert %T from %s to %s", v, from, to)
 	return nil
